@@ -340,6 +340,71 @@ func checkC08(e *Engine, r *Report) {
 	})
 	_ = strings.HasPrefix
 
+	r.Rule("R8", "PROVENANCE", "a gas estimate is a limit that was actually probed: in the bisection BinSearch the value returned (hi) is only ever the initial upper bound or a midpoint whose probe executable(mid) reported success — never a number derived from a probe's result (gas USED with spare gas is below the gas REQUIRED: refunds, the 63/64 rule)", 2, func() {
+		bs := e.Fn(pkgEvmTypes, "BinSearch")
+		hiP := ssa.Value(bs.Params[1])
+		execP := ssa.Value(bs.Params[2])
+		var probes []*ssa.Call
+		for _, c := range callsIn(bs, false, func(c ssa.CallInstruction) bool { return c.Common().Value == execP }) {
+			if cc, ok := c.(*ssa.Call); ok {
+				probes = append(probes, cc)
+			}
+		}
+		okRet := len(probes) == 1 && len(returnsOf(bs)) > 0
+		var visit func(v ssa.Value, at *ssa.BasicBlock, seen map[ssa.Value]bool) bool
+		visit = func(v ssa.Value, at *ssa.BasicBlock, seen map[ssa.Value]bool) bool {
+			if seen[v] {
+				return true
+			}
+			seen[v] = true
+			if v == hiP {
+				return true
+			}
+			if phi, ok := v.(*ssa.Phi); ok {
+				for k, ev := range phi.Edges {
+					if !visit(ev, phi.Block().Preds[k], seen) {
+						return false
+					}
+				}
+				return true
+			}
+			// the probed midpoint, arriving from the success side of its probe
+			if len(probes) == 1 && v == probes[0].Call.Args[0] {
+				for _, i := range ifs(bs) {
+					cond, neg := i.Cond, false
+					if u, isU := cond.(*ssa.UnOp); isU && u.Op == token.NOT {
+						cond, neg = u.X, true
+					}
+					ex, isEx := cond.(*ssa.Extract)
+					if !isEx || ex.Tuple != ssa.Value(probes[0]) || ex.Index != 0 {
+						continue
+					}
+					surv := 1 // `failed` false ⇒ success
+					if neg {
+						surv = 0
+					}
+					if at == i.Block().Succs[surv] || blockDominatedByEdge(bs, at, Guard{If: i, Survive: surv}) {
+						return true
+					}
+				}
+			}
+			return false
+		}
+		for _, ret := range successReturns(bs) {
+			if !visit(ret.Results[0], ret.Block(), map[ssa.Value]bool{}) {
+				okRet = false
+			}
+		}
+		r.Check(okRet, "x/evm/types.BinSearch › the estimate is the initial bound or a successfully probed midpoint", e.Pos(bs.Pos()), "hi ∈ {hi₀} ∪ {mid : executable(mid) succeeded}", "the bisection can return a limit it never executed successfully (e.g. a probe's gas used): delivering the call with the estimate as gas limit runs out of gas")
+		// the midpoint lies strictly between the bounds
+		okMid := false
+		if len(probes) == 1 {
+			sl := sliceFrom(probes[0].Call.Args[0])
+			okMid = sl.Has(func(v ssa.Value) bool { b, ok := v.(*ssa.BinOp); return ok && b.Op == token.QUO }) && sl.Has(func(v ssa.Value) bool { b, ok := v.(*ssa.BinOp); return ok && b.Op == token.ADD })
+		}
+		r.Check(okMid, "x/evm/types.BinSearch › probes the midpoint", e.Pos(bs.Pos()), "mid = (hi + lo) / 2", "the probe is not the midpoint of the current bounds")
+	})
+
 	r.Rule("R7", "PROVENANCE+EFFECT", "simulations run on the StateDB's cache branch only: every sdk.Context a StateDB method passes on is the current cache context, and the caller's original context (the committed state a query was given) reaches only write-free callees — a write through it would persist although CommitMultiStore is never called for commit=false (shared with C03-R2)", 30, func() {
 		stateDbCtxDiscipline(e, r)
 	})
